@@ -91,6 +91,11 @@ def part_handlers(chk, drv):
     rng = chk.rng
     for it in range(chk.n(40, 400)):
         cfg = c01.gen_config(rng, True, it)
+        if rng.random() < 0.3:
+            # fewer points than processes along some dimension: some ranks own empty blocks in some layouts
+            cfg['ext'] = list(cfg['ext'])
+            cfg['ext'][rng.randrange(len(cfg['ext']))] = rng.choice([1, 1, 2])
+            chk.count('handler configurations with empty blocks')
         names = list(cfg['layouts'])
         if not lu.connected(cfg['nprocs'], [cfg['layouts'][n] for n in names]):
             continue
